@@ -38,6 +38,8 @@ func checkC01(p *Program, r *Result) {
 	checkLexerTokenOwnership(p, r, "C01.c")
 	checkBindingKeys(p, r, "C01.d")
 	checkDecoderLimits(p, r, "C01.z")
+	r.rule("C01.t", "stream consumption per chunk depends on the data format, not on the decoder implementation", 1)
+	checkTrailerDrain(p, r, "C01.t")
 	r.rule("C01.r", "the chunk buffer read at flush is the buffer the compressor writes into", 1)
 	checkChunkBufferIdentity(p, r, "C01.r")
 }
